@@ -561,7 +561,52 @@ def run_cases(ctx, cases):
         check_case(ctx, c, mres)
 
 
+def check_supplied_other_dtype(ctx):
+    """'the result does not depend ... on the float type beyond rounding, or on preallocated outputs': a supplied
+    output buffer of the OTHER float type than `float_dtype` must receive the same particles (to float32 rounding of
+    the box scale) as the allocated result, and the count must be returned.  (Oracle on the implementation only.)"""
+    from abacusnbody.data import pack9
+    rng = ctx.rng
+    for trial in range(ctx.pick(12, 60)):
+        n = int(rng.integers(1, 12))
+        data = rng.integers(0, 256, (n, 9)).astype(np.uint8)
+        hdr = rng.random(n) < 0.3
+        hdr[0] = True
+        data[hdr, 0] = 0xFF
+        data[~hdr, 0] = np.minimum(data[~hdr, 0], 0xFE)
+        # keep cells-per-dimension away from 0: field 1 of a header is bytes 1 (high nibble) and 2
+        data[hdr, 1] |= 0x80
+        box, velz = float(rng.choice([500.0, 2000.0])), float(rng.choice([100.0, 1234.5]))
+        for fd, od in ((np.float32, np.float64), (np.float64, np.float32)):
+            for which in ('pos', 'vel', 'both'):
+                case = dict(kind='supplied-other-dtype', hex=data.tobytes().hex(), box=box, velz=velz,
+                            float_dtype=np.dtype(fd).name, buffer_dtype=np.dtype(od).name, which=which)
+                ctx.case(case)
+                ctx.count('kind:supplied-other-dtype')
+                ap, av = pack9.unpack_pack9(data, box, velz, float_dtype=fd)
+                npart = len(ap)
+                pb = np.full((n, 3), SENT, dtype=od)
+                vb = np.full((n, 3), SENT, dtype=od)
+                kw = dict(posout=pb if which in ('pos', 'both') else False, velout=vb if which in ('vel', 'both') else False)
+                rp, rv = pack9.unpack_pack9(data, box, velz, float_dtype=fd, **kw)
+                for name, ret, bufr, alloc, scale in (('pos', rp, pb, ap, box), ('vel', rv, vb, av, velz * 3)):
+                    if not (which == name or which == 'both'):
+                        continue
+                    if isinstance(ret, np.ndarray) or int(ret) != npart:
+                        ctx.fail('pack9: supplied %sout of another float type: returned %r, expected the count' % (name, ret),
+                                 case, repr(ret), npart, key='pack9:supplied-dtype')
+                        continue
+                    got = bufr[:npart].astype(np.float64)
+                    want = alloc.astype(np.float64)
+                    ok = np.all((np.abs(got - want) <= 4 * np.finfo(np.float32).eps * abs(scale)) | (np.isnan(got) & np.isnan(want)))
+                    if not ok:
+                        ctx.fail('pack9: a supplied %sout buffer of dtype %s (float_dtype=%s) does not receive the decoded particles'
+                                 % (name, np.dtype(od).name, np.dtype(fd).name), case, bufr[:min(npart, 3)].tolist(),
+                                 alloc[:min(npart, 3)].tolist(), key='pack9:supplied-dtype')
+
+
 def run(ctx):
+    check_supplied_other_dtype(ctx)
     corpus = corpus_cases()
     ctx.count('corpus', len(corpus))
     cases = list(corpus)
